@@ -25,10 +25,11 @@ divdiff(const double* x, const double* y, size_t n)
 	    / (x[n-1] - x[0]));
 }
 
-unsigned int
+double
 factorial(unsigned int n)
 {
-	unsigned int acc = 1;
+	//(13! no longer fits in 32 bits)
+	double acc = 1;
 	
 	for (unsigned int i = 2; i <= n; i++)
 		acc *= i;
